@@ -195,23 +195,27 @@ fn go(env: &Env, accs: &[Acc], depth: usize) {
             }
         }
         Acc::Iter { arch, form } => {
+            // which entity the closure is visiting is read from its handle parameter (iteration order is not specified)
+            let which = |any: EntityAny| -> usize {
+                if arch == 0 { env.ex.iter().position(|x| x.into_any() == any).unwrap() } else { env.ey.iter().position(|x| x.into_any() == any).unwrap() }
+            };
             macro_rules! wr {
-                ($p:ident, $col:expr) => {{
+                ($p:ident, $col:expr, $e:ident) => {{
                     $p.0 += nv;
-                    env.writes.borrow_mut().push((arch, 0, $col, $p.0));
+                    env.writes.borrow_mut().push((arch, which($e.into_any()), $col, $p.0));
                 }};
             }
             macro_rules! forms {
                 ($A:ty, $C1:ty) => {
                     match form {
                         0 => ecs_iter_borrow!(w, |a: &Ca, _e: &Entity<$A>| { entered(); go(env, rest, depth + 1); EcsStep::Break }),
-                        1 => ecs_iter_borrow!(w, |a: &mut Ca, _e: &Entity<$A>| { entered(); wr!(a, 0); go(env, rest, depth + 1); EcsStep::Break }),
+                        1 => ecs_iter_borrow!(w, |a: &mut Ca, _e: &Entity<$A>| { entered(); wr!(a, 0, _e); go(env, rest, depth + 1); EcsStep::Break }),
                         2 => ecs_iter_borrow!(w, |b: &$C1, _e: &Entity<$A>| { entered(); go(env, rest, depth + 1); EcsStep::Break }),
-                        3 => ecs_iter_borrow!(w, |b: &mut $C1, _e: &Entity<$A>| { entered(); wr!(b, 1); go(env, rest, depth + 1); EcsStep::Break }),
+                        3 => ecs_iter_borrow!(w, |b: &mut $C1, _e: &Entity<$A>| { entered(); wr!(b, 1, _e); go(env, rest, depth + 1); EcsStep::Break }),
                         4 => ecs_iter_borrow!(w, |a: &Ca, b: &$C1, _e: &Entity<$A>| { entered(); go(env, rest, depth + 1); EcsStep::Break }),
-                        5 => ecs_iter_borrow!(w, |a: &Ca, b: &mut $C1, _e: &Entity<$A>| { entered(); wr!(b, 1); go(env, rest, depth + 1); EcsStep::Break }),
-                        6 => ecs_iter_borrow!(w, |a: &mut Ca, b: &$C1, _e: &Entity<$A>| { entered(); wr!(a, 0); go(env, rest, depth + 1); EcsStep::Break }),
-                        7 => ecs_iter_borrow!(w, |a: &mut Ca, b: &mut $C1, _e: &Entity<$A>| { entered(); wr!(a, 0); wr!(b, 1); go(env, rest, depth + 1); EcsStep::Break }),
+                        5 => ecs_iter_borrow!(w, |a: &Ca, b: &mut $C1, _e: &Entity<$A>| { entered(); wr!(b, 1, _e); go(env, rest, depth + 1); EcsStep::Break }),
+                        6 => ecs_iter_borrow!(w, |a: &mut Ca, b: &$C1, _e: &Entity<$A>| { entered(); wr!(a, 0, _e); go(env, rest, depth + 1); EcsStep::Break }),
+                        7 => ecs_iter_borrow!(w, |a: &mut Ca, b: &mut $C1, _e: &Entity<$A>| { entered(); wr!(a, 0, _e); wr!(b, 1, _e); go(env, rest, depth + 1); EcsStep::Break }),
                         8 => ecs_iter_borrow!(w, |a: &Ca, a2: &Ca, _e: &Entity<$A>| { entered(); go(env, rest, depth + 1); EcsStep::Break }),
                         9 => ecs_iter_borrow!(w, |a: &Ca, a2: &mut Ca, _e: &Entity<$A>| { entered(); go(env, rest, depth + 1); EcsStep::Break }),
                         10 => ecs_iter_borrow!(w, |a: &mut Ca, a2: &Ca, _e: &Entity<$A>| { entered(); go(env, rest, depth + 1); EcsStep::Break }),
@@ -226,21 +230,24 @@ fn go(env: &Env, accs: &[Acc], depth: usize) {
             }
         }
         Acc::IterAll { form } => {
-            // which archetype is being visited is only known inside: the first non-empty one (X before Y)
-            let arch_now: u8 = if !env.ex.is_empty() { 0 } else { 1 };
+            // which entity (of which archetype) is visited is read from the handle parameter
+            let which = |any: EntityAny| -> (u8, usize) {
+                if let Some(i) = env.ex.iter().position(|x| x.into_any() == any) { (0, i) } else { (1, env.ey.iter().position(|x| x.into_any() == any).unwrap()) }
+            };
             macro_rules! wr {
-                ($p:ident) => {{
+                ($p:ident, $e:ident) => {{
                     $p.0 += nv;
-                    env.writes.borrow_mut().push((arch_now, 0, 0, $p.0));
+                    let (a, i) = which(*$e);
+                    env.writes.borrow_mut().push((a, i, 0, $p.0));
                 }};
             }
             match form {
-                0 => ecs_iter_borrow!(w, |a: &Ca| { entered(); go(env, rest, depth + 1); EcsStep::Break }),
-                1 => ecs_iter_borrow!(w, |a: &mut Ca| { entered(); wr!(a); go(env, rest, depth + 1); EcsStep::Break }),
-                8 => ecs_iter_borrow!(w, |a: &Ca, a2: &Ca| { entered(); go(env, rest, depth + 1); EcsStep::Break }),
-                9 => ecs_iter_borrow!(w, |a: &Ca, a2: &mut Ca| { entered(); go(env, rest, depth + 1); EcsStep::Break }),
-                10 => ecs_iter_borrow!(w, |a: &mut Ca, a2: &Ca| { entered(); go(env, rest, depth + 1); EcsStep::Break }),
-                _ => ecs_iter_borrow!(w, |a: &mut Ca, a2: &mut Ca| { entered(); go(env, rest, depth + 1); EcsStep::Break }),
+                0 => ecs_iter_borrow!(w, |a: &Ca, e: &EntityAny| { entered(); go(env, rest, depth + 1); EcsStep::Break }),
+                1 => ecs_iter_borrow!(w, |a: &mut Ca, e: &EntityAny| { entered(); wr!(a, e); go(env, rest, depth + 1); EcsStep::Break }),
+                8 => ecs_iter_borrow!(w, |a: &Ca, a2: &Ca, e: &EntityAny| { entered(); go(env, rest, depth + 1); EcsStep::Break }),
+                9 => ecs_iter_borrow!(w, |a: &Ca, a2: &mut Ca, e: &EntityAny| { entered(); go(env, rest, depth + 1); EcsStep::Break }),
+                10 => ecs_iter_borrow!(w, |a: &mut Ca, a2: &Ca, e: &EntityAny| { entered(); go(env, rest, depth + 1); EcsStep::Break }),
+                _ => ecs_iter_borrow!(w, |a: &mut Ca, a2: &mut Ca, e: &EntityAny| { entered(); go(env, rest, depth + 1); EcsStep::Break }),
             }
         }
         Acc::CloneW => {
